@@ -158,9 +158,29 @@ func runC01(c *Ctx) {
 		prefix := []byte{0xde, 0xad, 0xbe, 0xef, 0x55}
 		buf := make([]byte, len(prefix), len(prefix)+len(b1)+7)
 		copy(buf, prefix)
+		// the spare capacity really is dirty: an encoder that relies on zeroed memory behind len(dst)
+		// (a scratch buffer reused as item.AppendTo(buf[:0])) shows here (after seeded change C01b-1)
+		spare := buf[len(prefix):cap(buf)]
+		for k := range spare {
+			spare[k] = 0xAA ^ byte(k*37)
+			if spare[k] == 0 {
+				spare[k] = 0xFF
+			}
+		}
 		out := item.AppendTo(buf)
 		if !bytes.Equal(out[:len(prefix)], prefix) || !bytes.Equal(out[len(prefix):], b1) {
-			c.Violate("property", "appendto-prefix", "AppendTo changed the existing prefix or appended something other than the encoding", replay)
+			c.Violate("property", "appendto-prefix", fmt.Sprintf("AppendTo into a buffer with dirty spare capacity changed the existing prefix or appended something other than the encoding: got %s want %s",
+				clip(hexs(out[len(prefix):]), 120), clip(hexs(b1), 120)), replay)
+		}
+		// reuse of the same scratch buffer for a second encode, and a too-small dirty buffer (forces growth)
+		out2 := item.AppendTo(out[:0])
+		if !bytes.Equal(out2, b1) {
+			c.Violate("property", "appendto-prefix", "AppendTo(buf[:0]) into a previously used scratch buffer differs from ToBytes", replay)
+		}
+		small := []byte{0x11, 0xEE, 0xEE, 0xEE}
+		out3 := item.AppendTo(small[:1])
+		if len(out3) < 1 || out3[0] != 0x11 || !bytes.Equal(out3[1:], b1) {
+			c.Violate("property", "appendto-prefix", "AppendTo into a short dirty buffer (growth path) differs from prefix+ToBytes", replay)
 		}
 		if encAns != nil {
 			want := fmt.Sprintf("%s %d", hexs(b1), elen)
